@@ -662,8 +662,10 @@ func c16CaseFull(op timedOp, tl []tlItem, cutAt time.Duration, bound int, slow t
 				add("grammar", grammarClass(rec.Events()), g)
 			}
 			op.check(l, rec.Log, add)
-			if l.cutAt < 0 && hasTerminal(rec.Events()) && r.TimersLeft > 0 {
-				add("timer-left-armed", "after-termination", fmt.Sprintf("the stream has terminated (trace [%s]) and %d timers of the library are still armed", rec.Trace(), r.TimersLeft))
+			// (tickers only, as after Unsubscribe below: a pending one-shot timer can only fire into a closed
+			// subscriber; a ticker nobody stopped keeps a goroutine busy for ever)
+			if l.cutAt < 0 && hasTerminal(rec.Events()) && r.TickersLeft > 0 {
+				add("timer-left-armed", "after-termination", fmt.Sprintf("the stream has terminated (trace [%s]) and %d periodic timers of the library are still running", rec.Trace(), r.TickersLeft))
 			}
 			if l.cutAt >= 0 {
 				for _, en := range rec.Log {
